@@ -66,7 +66,9 @@ def batch(ctx, n, salt, sl):
 
     specs = specs_for(ctx, n, salt)
     a = [safe(digest_of, s, 12345) for s in specs]
-    b = [safe(digest_of, s, 987) for s in specs]
+    # the second in-process pass runs the configurations in REVERSE order: what a run gives must not depend on
+    # which other configurations the process has seen before it
+    b = [safe(digest_of, s, 987) for s in reversed(specs)][::-1]
     c = worker(specs, 0, 31337)
     d = worker(specs, 4242, 5)
     # the same configuration run twice more with ONE sprout mechanism object (everything else built afresh):
